@@ -152,3 +152,15 @@ func guardInput(kind string, tris []*model3d.Triangle) func() *Finding {
 		return nil
 	}
 }
+
+// positioned returns a seekable stream that holds some foreign bytes followed by
+// data, positioned at the start of data (a mesh inside a container file).
+func positioned(src *choice.Source, data []byte) *simio.SeekReader {
+	n := 1 + src.Intn(40)
+	buf := make([]byte, 0, n+len(data))
+	for i := 0; i < n; i++ {
+		buf = append(buf, byte(src.Intn(256)))
+	}
+	buf = append(buf, data...)
+	return &simio.SeekReader{Data: buf, Pos: int64(n)}
+}
